@@ -9,7 +9,7 @@ import errno
 import io
 import json
 
-from .common import HarnessError, Violation, ensure_gwf_on_path
+from .common import HarnessError, SimAbort, Violation, ensure_gwf_on_path
 from .loop import Clock, SimLoop
 from .proc import OS_PROXY, PROXY, ProcTable
 
@@ -127,6 +127,14 @@ class FakeWriter:
 
     def write(self, data):
         c = self.conn
+        w = c.world
+        # deterministic livelock detector: a connection handler that answers tens of thousands of times
+        # within ONE loop iteration never yields to the event loop (the whole pool is frozen)
+        w.writes_this_iteration += 1
+        if w.writes_this_iteration > 20000:
+            raise SimAbort(Violation("C14", "handler_never_yields",
+                                     f"the handler of connection {c.cid} wrote {w.writes_this_iteration} replies without "
+                                     f"ever yielding to the event loop: the pool is frozen", {"engine": "pool"}))
         if c.client_gone:
             c.dropped_writes += 1
             return
@@ -275,6 +283,7 @@ class PoolWorld:
         self.last_issued = None
         self.on_enqueued_cb = None
         self.on_cancel_cb = None
+        self.writes_this_iteration = 0
         self.conns = {}
         self.probes = {}
         self.faults = {}
@@ -441,6 +450,7 @@ class PoolWorld:
         return (st, len(self.table.live()), getattr(sem, "_value", None))
 
     def step(self):
+        self.writes_this_iteration = 0
         self.loop.step()
         self._after_iteration()
 
@@ -579,8 +589,8 @@ class PoolWorld:
                 except Exception:
                     self.flag("C14", "unparsable_reply", f"conn {cid}: {ln[:60]!r}")
                     continue
-                if c.tainted:
-                    continue  # a misbehaving client's replies are its own business
+                if c.tainted or cid != "c0":
+                    continue  # only the well-behaved client's replies are matched; the others' are their own business
                 if not c.pending:
                     self.flag("C14", "unsolicited_reply", f"conn {cid}: {kind}")
                     continue
